@@ -13,6 +13,7 @@ import (
 	"context"
 	"encoding/json"
 	"fmt"
+	"hash/fnv"
 	"os"
 	"os/exec"
 	"path/filepath"
@@ -84,7 +85,8 @@ func altModfile(repo string) string {
 		fatal(2, "read go.mod: %v", err)
 	}
 	s := strings.Replace(string(b), "=> /repo", "=> "+repo, 1)
-	dir := filepath.Join(workDir, "alt")
+	// one directory per scratch tree: several mutant runs may be going on at the same time
+	dir := filepath.Join(workDir, "alt", repoTag(repo))
 	os.MkdirAll(dir, 0o755)
 	p := filepath.Join(dir, "go.mod")
 	os.WriteFile(p, []byte(s), 0o644)
@@ -92,6 +94,13 @@ func altModfile(repo string) string {
 		os.WriteFile(filepath.Join(dir, "go.sum"), sum, 0o644)
 	}
 	return p
+}
+
+// repoTag is a short stable name for a scratch tree.
+func repoTag(repo string) string {
+	h := fnv.New32a()
+	h.Write([]byte(repo))
+	return fmt.Sprintf("%08x", h.Sum32())
 }
 
 func fatal(code int, format string, a ...any) {
@@ -152,7 +161,7 @@ func binPath(p *prop, race bool, repo string) string {
 		name += ".race"
 	}
 	if repo != "/repo" {
-		name += ".alt"
+		name += ".alt-" + repoTag(repo)
 	}
 	return filepath.Join(workDir, "bin", name+".test")
 }
@@ -370,6 +379,14 @@ func check(p *prop, repo, tier string, seed int64) int {
 	os.MkdirAll(statsDir, 0o755)
 	defer os.RemoveAll(statsDir)
 	defer os.RemoveAll(journalDir())
+	if repo != "/repo" {
+		// binaries and module files of a scratch tree are of no use once the run is over
+		defer func() {
+			os.Remove(binPath(p, false, repo))
+			os.Remove(binPath(p, true, repo))
+			os.RemoveAll(filepath.Join(workDir, "alt", repoTag(repo)))
+		}()
+	}
 	// Stale replays of this property are removed so a reported path is always from this run.
 	// Runs against a scratch tree (VERIF_REPO) keep their replays apart from the real ones.
 	replayDir := filepath.Join(verifDir, "replays", p.ID)
